@@ -2,6 +2,7 @@
 from __future__ import annotations
 
 from ..engine import monitors, suite
+from ..engine import rebuild as rebuild_mod
 from ..runner import Divergence, Driver, Env, Outcome, diff_streams
 
 THEOREMS = ["C11_replay_invariant", "C11_rebuilt_wellformed", "C11_log_grows_only_by_drain",
@@ -37,8 +38,11 @@ EXPLANATION = (
 ASSUMPTIONS = suite.ENGINE_ASSUMPTIONS + [
     "replay with a different clock equals the live state only 'timestamps aside' and only for policies that do not depend on elapsed time "
     "(TimeFree): proved under that guard (C11_rebuild_agrees_with_live), refuted without it (C11_refuted_elapsed_time_policy, reproduced on "
-    "the real code: to_dict() of a run that failed through stop_after_delay says is_running=True); generated policies of the monitored "
-    "streams are attempt-based, the elapsed-time family is compared with the model only",
+    "the real code: to_dict() of a run that failed through stop_after_delay says is_running=True; OPEN known finding "
+    "C11/replay_redecides_elapsed_time_policy); generated policies of the other streams are attempt-based; in the elapsed-time family a difference "
+    "is classified as the known finding only when a policy that stops by elapsed time was answered differently in the rebuild AND the model under "
+    "the rebuild's answers equals the real rebuild AND the model under the live answers equals the live run (rebuild.redecided); for specs with "
+    "such a policy the views use only clocks not earlier than the recorded ticks",
     "what a caller of the live handler saw after the k-th tick is reproduced after the run through an adapter that shows the real "
     "ExternalContext the first k ticks of the recorded log (the log is append-only: GenTickLog.ticksWrites)",
 ]
@@ -72,6 +76,11 @@ def _views(env: Env, out: Outcome, traces: list, label: str, rng, monitor: bool 
             ks = sorted(set(ks) | {min(want.get("resume", want)["prefix"], len(ticks))})
         for k in ks:
             clock = rng.choice([end, end, end + rng.randint(1, 60), rng.randint(0, 3000), 0])
+            if rebuild.elapsed_stop_steps(tr.spec):
+                # a policy that stops by elapsed time makes the rebuild depend on its clock (known finding): only clocks a real
+                # caller can have, i.e. not before the ticks were recorded (an earlier clock makes the rebuild give up where the
+                # live run retried, which no caller of a live handler can observe)
+                clock = rng.choice([end, end + rng.randint(1, 60), end + 1000])
             if isinstance(want, dict) and want.get("resume", want).get("prefix") == k and isinstance(want.get("resume", want).get("clock"), int):
                 clock = want.get("resume", want)["clock"]  # replaying a recorded case: its clock
             obs = rebuild.observe(tr, k, clock)
@@ -90,7 +99,7 @@ def _views(env: Env, out: Outcome, traces: list, label: str, rng, monitor: bool 
                 if obs["running_steps"] or k not in (0, len(ticks)):
                     out.nontrivial(("view", label, repr(tr.spec), tuple(tr.actions), k, clock))
             if monitor:
-                for v in rebuild.mon_views(tr, obs):
+                for v in rebuild.classify_views(tr, obs, rebuild.mon_views(tr, obs)):
                     if case_of is not None:
                         v.replay = case_of(tr, v.replay)
                     out.violations.append(v)
@@ -172,7 +181,7 @@ def _resumed_runs(env: Env, out: Outcome, n: int) -> None:
         out.count("resume:outcome:" + tr2.outcome[0])
         if pend:
             out.nontrivial(("resume", kind, repr(spec), tuple(tr1.actions)))
-        for v in monitors.mon_c11(tr2):
+        for v in rebuild_mod.mon_c11_classified(tr2):
             v.replay = {"resume": {"spec": spec, "seed": seed, "actions1": tr1.actions, "actions2": tr2.actions}}
             out.violations.append(v)
     suite.runner_corr(out, resumed, "engine-runner-resumed")
@@ -196,7 +205,7 @@ def run(env: Env) -> Outcome:
     import random as _random
 
     vrng = _random.Random(env.seed * 7919 + 11)  # own stream: the runs generated below stay what they were per seed
-    trs = suite.live_runs(env, out, env.budget(250, 5000), [monitors.mon_c11], extra_specs=suite.load_corpus("C11"), mutate_spec=attempt_based)
+    trs = suite.live_runs(env, out, env.budget(250, 5000), [rebuild_mod.mon_c11_classified], extra_specs=suite.load_corpus("C11"), mutate_spec=attempt_based)
     _views(env, out, trs, "general", vrng)
 
     def many_snapshots(spec: dict, rng) -> dict:
@@ -209,22 +218,26 @@ def run(env: Env) -> Outcome:
             spec.setdefault("externals", []).append({"op": "snapshot", "after_quiet": rng.randint(0, 6)})
         return spec
 
-    trs = suite.live_runs(env, out, env.budget(120, 2400), [monitors.mon_c11], gen_kwargs={"family": "fanin"}, mutate_spec=many_snapshots)
+    trs = suite.live_runs(env, out, env.budget(120, 2400), [rebuild_mod.mon_c11_classified], gen_kwargs={"family": "fanin"}, mutate_spec=many_snapshots)
     _views(env, out, trs, "fanin", vrng)
-    trs = suite.live_runs(env, out, env.budget(80, 1600), [monitors.mon_c11], gen_kwargs={"family": "retry"}, mutate_spec=many_snapshots)
+    trs = suite.live_runs(env, out, env.budget(80, 1600), [rebuild_mod.mon_c11_classified], gen_kwargs={"family": "retry"}, mutate_spec=many_snapshots)
     _views(env, out, trs, "retry", vrng)
     _resumed_runs(env, out, env.budget(120, 2400))
 
     def elapsed_time_policy(spec: dict, rng) -> dict:
         # OUTSIDE the proved guard (C11_refuted_elapsed_time_policy): every retry policy gives up by elapsed time (stop_after_delay).
-        # Correspondence only: the model's rebuild, fed the policy's answers at the REBUILD's clock, must still equal the real one;
-        # how often the rebuilt running flag differs from the live one is counted into the evidence, not reported.
+        # Monitored with a classification: a difference between rebuilt and live state that is explained by a retry decision taken
+        # differently at the rebuild's clock is the KNOWN finding C11/replay_redecides_elapsed_time_policy (rebuild.redecided);
+        # any other difference keeps the generic signatures.  How often the rebuilt running flag differs is counted as well.
         for st in spec["steps"]:
             if st.get("retry") is not None:
                 st["retry"] = {"kind": "delay", "d": rng.choice([2, 5, 7]), "wait": rng.choice([1, 2, 3])}
         spec.pop("timeout", None)
         return spec
 
-    trs = suite.live_runs(env, out, env.budget(24, 800), [], gen_kwargs={"family": "retry"}, mutate_spec=elapsed_time_policy)
-    _views(env, out, trs, "elapsed_time_policy", vrng, monitor=False)
+    trs = suite.live_runs(env, out, env.budget(24, 480), [rebuild_mod.mon_c11_classified], gen_kwargs={"family": "retry"}, mutate_spec=elapsed_time_policy)
+    _views(env, out, trs, "elapsed_time_policy", vrng)
+    for v in out.violations:
+        if v.signature.startswith(rebuild_mod.KNOWN):
+            out.count("known:" + v.signature)
     return out
